@@ -302,8 +302,14 @@ fn col_strategy() -> impl Strategy<Value = AbsCol> {
         })
 }
 
-fn table_strategy(idx: usize, page_id: i32, long: bool) -> impl Strategy<Value = AbsTable> {
-    let ncols = prop_oneof![8 => 1usize..6, 1 => 6usize..20, 1 => Just(32usize)];
+fn table_strategy(idx: usize, page_id: i32, long: bool, beyond_32: bool) -> impl Strategy<Value = AbsTable> {
+    // (`beyond_32`: C09 only; a catalog may describe more columns than the
+    // library's own create_table allows)
+    let ncols = if beyond_32 {
+        prop_oneof![8 => 1usize..6, 1 => 6usize..20, 1 => Just(32usize), 1 => 33usize..41].boxed()
+    } else {
+        prop_oneof![8 => 1usize..6, 1 => 6usize..20, 1 => Just(32usize)].boxed()
+    };
     (ncols, any::<u16>())
         .prop_flat_map(move |(n, keypos)| {
             (prop::collection::vec(col_strategy(), n), Just(keypos), prop::collection::vec(prop::collection::vec((any::<u8>(), any::<i32>(), page_string(page_id)), n), 0..7), any::<prop::sample::Index>())
@@ -311,7 +317,7 @@ fn table_strategy(idx: usize, page_id: i32, long: bool) -> impl Strategy<Value =
         .prop_map(move |(mut cols, keypos, rowseeds, longpos)| {
             let n = cols.len();
             for (i, c) in cols.iter_mut().enumerate() {
-                c.def.name = ["k", "a", "b", "Name", "Value_1", "c.d", "_e", "Zed"].get(i).map(|s| s.to_string()).unwrap_or_else(|| format!("col{i}"));
+                c.def.name = ["k", "a", "b", "Name", "K", "c.d", "_e", "A"].get(i).map(|s| s.to_string()).unwrap_or_else(|| format!("col{i}"));
             }
             // at least one key, anywhere in the column order
             let kp = crate::seq::pick(keypos, n);
@@ -421,24 +427,26 @@ fn stream_name() -> impl Strategy<Value = String> {
         6 => "[a-zA-Z0-9._]{1,10}".prop_map(|s| s),
         1 => "[a-zA-Z0-9._]{1,10}".prop_map(|s| format!("\u{5}{s}")),
         1 => "[a-zA-Z0-9._]{0,4}".prop_map(|s| format!("{s} -{s}é")),
+        // numerals and letters outside ASCII (stored as they are, never packed)
+        1 => ("[a-zA-Z0-9._]{0,4}", prop::sample::select(vec!['²', '½', '٣', '５', 'Ａ', 'ａ', 'Ⅷ', '０'])).prop_map(|(s, c)| format!("{s}{c}{s}")),
     ]
 }
 
 pub fn db_strategy() -> impl Strategy<Value = AbsDb> {
-    db_strategy_with(0.06)
+    db_strategy_with(0.06, false)
 }
 
 /// `long_weight`: probability that the first table is a long one (tens of
 /// thousands of rows).  The libFuzzer target passes 0: a long table consumes
 /// more generator bytes than a fuzzer input plus its fixed tail provides.
-pub fn db_strategy_with(long_weight: f64) -> impl Strategy<Value = AbsDb> {
+pub fn db_strategy_with(long_weight: f64, beyond_32: bool) -> impl Strategy<Value = AbsDb> {
     let pool = (any::<bool>(), prop_oneof![3 => Just(0u8), 1 => Just(3), 1 => Just(5)], prop_oneof![3 => Just(0u8), 1 => Just(2), 1 => Just(4)], prop_oneof![3 => Just(0u8), 1 => Just(3)], 1u8..3, prop_oneof![48 => Just(0u32), 1 => Just(65_600u32)])
         .prop_map(|(long_refs, hole_every, dup_every, overcount_every, overcount_by, leading_holes)| PoolOpts { long_refs: long_refs || leading_holes > 0, hole_every, dup_every, overcount_every, overcount_by, leading_holes });
     (0usize..PAGES.len() + 1, 1usize..5, prop::bool::weighted(long_weight), pool, prop::bool::weighted(0.8), summary_strategy(), 0u8..3, prop::collection::vec((stream_name(), prop::collection::vec(any::<u8>(), 0..40)), 0..3))
-        .prop_flat_map(|(pi, ntables, long, pool, with_validation, summary, ptype, streams)| {
+        .prop_flat_map(move |(pi, ntables, long, pool, with_validation, summary, ptype, streams)| {
             let id = if pi == PAGES.len() { 0 } else { PAGES[pi].id };
             let page_id = if id == 0 { 65001 } else { id };
-            let tables: Vec<BoxedStrategy<AbsTable>> = (0..ntables).map(|i| table_strategy(i, page_id, long && i == 0).boxed()).collect();
+            let tables: Vec<BoxedStrategy<AbsTable>> = (0..ntables).map(|i| table_strategy(i, page_id, long && i == 0, beyond_32).boxed()).collect();
             (Just(id), tables, Just(pool), Just(with_validation), Just(summary), Just(ptype), Just(streams))
         })
         .prop_map(|(codepage_id, tables, pool, with_validation, summary, ptype, streams)| {
